@@ -612,7 +612,12 @@ def check_case(col, inp, L, R, lp, rp, inidir, status_check="fast"):
                     if f["clause"] == "equal-but-entry" and f.get("identical"):
                         name = "key-sync-reflexivity-record-without-identity-field" if "missing" in idkey_issues \
                             else "key-sync-reflexivity-identity-value-duplicated"
-                    elif f["clause"] == "equal-but-entry" and idkey_issues == {"missing"}:
+                    elif f["clause"] == "equal-but-entry" and idkey_issues == {"missing"} and \
+                            spec.data_equal(lp, rp, "position", laoh, aoh_key, whole_unit="plain") and \
+                            spec.data_equal(lp, rp, arrays, laoh, aoh_key, whole_unit="plain") and \
+                            all(isinstance(v, dict) for e in ents if e[0] != "SAME" for v in e[2:4] if v is not None):
+                        # ... and every reported difference is about a whole record of a key-synchronised list
+                        # (the keyless records have plainly equal twins: nothing hinges on order INSIDE them)
                         # data-equal documents (order disregarded) whose only peculiarity is a record without the
                         # identity field: such a record pairs with its identical twin, so no difference may show
                         name = "key-sync-equal-data-record-without-identity-field"
@@ -1035,6 +1040,9 @@ def run(tier="quick", seed=0, jobs=None):
         c_t += [[{"a": 1, "b": 1}, {"a": 2, "b": 1}, {"a": 3, "b": None}],
                 [{"a": 3, "b": None}, {"a": 1, "b": 1}, {"a": 2, "b": 1}],
                 [{"a": 1, "b": 1}, {"a": 1, "b": 2}, {"a": 1, "b": 1}],
+                # a record without the identity field at each position among keyed records
+                [{"a": 1, "b": 1}, {"a": 2, "b": 1}, {"c": 0}], [{"a": 1, "b": 1}, {"c": 0}, {"a": 2, "b": 1}],
+                [{"a": 2, "b": 1}, {"c": 0}, {"a": 1, "b": 1}],
                 [1, 2], [None], [[1]], [{"a": [1, 2]}, {"a": [2, 1]}], [{"a": [2, 1]}, {"a": [1, 2]}],
                 [{"a": {"b": [1, 2]}}], [{"a": {"b": [2, 1]}}]]
         nC = _load_pool("C", c_t)
